@@ -26,6 +26,7 @@ WHAT = {
     "tag_from_wire_table": "for ALL 2^32 four-byte words w: Tag::from_wire(w) == Ok(t) <=> w == table[t]",
     "version_table_google": "Version::Google wire bytes / delegation context / response context equal the protocol's",
     "version_table_rfcdraft13": "Version::RfcDraft13 wire bytes / delegation context / response context equal the protocol's",
+    "supported_versions_table": "Version::supported_versions_wire() == wire(Google) ++ wire(RfcDraft13)",
     "const_tables": "REQUEST_FRAMING_BYTES, TREE_*_TWEAK, HASH_PREFIX_SRV, MIN/MAX_REQUEST_LENGTH equal the protocol's",
 }
 
